@@ -86,6 +86,26 @@ CLAIMED = {
         'Trusted: Coq kernel, extraction, harness; iteration order of the Python set inside __pub__ enters as an oracle (a permutation). '
         'Known findings: reserved attribute/class names, first-synthesis-wins registry (see KNOWN_FINDINGS.jsonl).',
         '7 C07'),
+    'C08': (
+        'Coq proofs for the character-level matchers and the whitespace loop + exhaustive matcher correspondence + robustness oracle',
+        'Proved: a match of @uint/@int is never empty, stays inside the text and is a literal int() converts ([+-]?D(_?D)*, D = isdecimal), so the '
+        'conversion cannot raise; @name/@bool matches are non-empty and exact; skipping whitespace and comments always terminates, never moves backwards '
+        'and never leaves the text - even for patterns that can match the empty string (for every regex oracle whose matches lie inside the text). '
+        'Tied by M1: all strings up to length 4/5 over the characters the matchers distinguish x every position. The statement for whole grammars and for '
+        'compiling grammar texts is an implementation oracle: random grammars with @meta expressions x unicode texts x {TextLines, Buffer} x {parseinfo}, '
+        'mutated grammar texts; exception class, hang, recursion, failure position / line info, message renders.',
+        'Trusted: Coq kernel, extraction, harness; Python int()/float() acceptance (checked on every matched slice). @float is covered by the '
+        'correspondence and the oracle only (no theorem). Engine-level absence of foreign exceptions is not proved (the model raises only where modelled).',
+        '7 C08'),
+    'C09': (
+        'Coq proofs for the input layer and the configuration layering + input-configuration differential runs + relayout oracle',
+        'Proved: skipping whitespace/comments is idempotent; tokens, constants, void, fail and the end-of-text check give the same result however much '
+        'whitespace precedes them, patterns and the any-character expression look at the cursor position only; nameguard blocks exactly name tokens followed '
+        'by a name character and does not affect other tokens; the effective value of every configuration field is the first defined among parse-time setting, '
+        'directive, build-time setting, default (Config.v vs Config.override/hard_override). Tied by differential execution under input configurations given as '
+        'directives or settings, by K1 (real Grammar/ParserConfig vs Config.v on random setting triples) and by the metamorphic relayout oracle on the implementation.',
+        'Trusted: as C01. The whitespace-invariance statement for whole parses is decided by the oracle, not by a theorem (partial). Known finding: settings given to tatsu.compile never reach the model.',
+        '7 C09'),
     'C10': (
         'Coq state-machine model of the API caches (history independence invariant, schedule independence) + fresh-interpreter replay',
         'Api.v models compile()/parse() over a heap with the cache key the code uses; proved: for the repaired compile (the code after the '
